@@ -113,6 +113,7 @@ def run(rep, props, replay=None):
             case_2d(rep, rng, runq, todo, quick, i)
     kernel_monitor(rep)
     integer_design(rep, rng)
+    far_origin(rep, rng)
     # the TRANSLATED kernels (Gen/Kernels.v, regenerated from the source text) executed in Q against the running code:
     # validates the translator itself (what it emits is what the code computes), incl. the support boundary
     from FDApy.preprocessing.smoothing import local_polynomial as lpmod
@@ -260,6 +261,43 @@ def integer_design(rep, rng):
         if bad:
             rep.violation(f"local polynomial smoother ({kernel}, degree {p}): " + "; ".join(bad),
                           {"x": xi.tolist(), "y": C.hexf(y), "x_new": C.hexf(xq)})
+
+
+def far_origin(rep, rng):
+    """Abscissae far from the origin (time stamps, years): the fit is a function of x - x0, so a design moved by an exactly
+    representable offset, queried at the moved points, gives the same estimates (1-D and 2-D, every kernel)."""
+    n = 30
+    u = np.round(rng.uniform(0, 64, size=n) * 64) / 64
+    y = np.round((np.sin(u / 9.0) * 3 + rng.normal(size=n) * 0.2 + 1.0) * 256) / 256
+    uq = np.round(np.sort(rng.uniform(4, 60, size=4)) * 16) / 16
+    u2 = np.round(rng.uniform(0, 8, size=(n, 2)) * 64) / 64
+    uq2 = np.round(rng.uniform(2, 6, size=(3, 2)) * 16) / 16
+    for k, kernel in enumerate(KERNELS):
+        p = k % 3
+        for c in (2.0 ** 22, -(2.0 ** 27), 1.7e9):
+            with warnings.catch_warnings():
+                warnings.simplefilter("ignore")
+                try:
+                    e0 = np.asarray(make_lp(kernel, 12.0, p).predict(y=y, x=u, x_new=uq), float)
+                    e1 = np.asarray(make_lp(kernel, 12.0, p).predict(y=y, x=u + c, x_new=uq + c), float)
+                    f0 = np.asarray(make_lp(kernel, 3.0, min(p, 1)).predict(y=y, x=u2, x_new=uq2), float)
+                    f1 = np.asarray(make_lp(kernel, 3.0, min(p, 1)).predict(y=y, x=u2 + np.array([c, -c / 4]), x_new=uq2 + np.array([c, -c / 4])), float)
+                except Exception as e:  # noqa: BLE001
+                    rep.violation(f"local polynomial smoother ({kernel}, degree {p}) raised {type(e).__name__}: {e} on a design far "
+                                  f"from the origin"[:300], {"x": C.hexf(u), "offset": c})
+                    continue
+            rep.case(("far-origin", kernel, p, c, u.tobytes()), kind="far-origin")
+            tol = 1e-8 * max(1.0, float(np.max(np.abs(y))))
+            bad = []
+            if e0.shape != e1.shape or not np.all(np.isfinite(e1)) or np.max(np.abs(e0 - e1)) > tol:
+                bad.append(f"1-D estimates move by {np.max(np.abs(e0 - e1)):.3g}")
+            if f0.shape != f1.shape or not np.all(np.isfinite(f1)) or np.max(np.abs(f0 - f1)) > tol:
+                bad.append(f"2-D estimates move by {np.max(np.abs(f0 - f1)):.3g}")
+            if bad:
+                rep.violation(f"local polynomial smoother ({kernel}, degree {p}): the estimate depends on the origin of the abscissae — "
+                              f"design and query points moved by {c!r}: " + "; ".join(bad) + " (the weights are a function of x - x0)",
+                              {"x": C.hexf(u), "x2": C.hexf(u2), "y": C.hexf(y), "x_new": C.hexf(uq), "x_new2": C.hexf(uq2), "offset": c,
+                               "kernel": kernel, "degree": p})
 
 
 def kernel_monitor(rep):
